@@ -326,6 +326,8 @@ pub struct Obs {
     pub gen_orig_again: String,
     pub gen_dedup: String,
     pub validation: String,
+    /// resolve_type_path(id) + emission for every id, one line per id
+    pub resolve_all: String,
     pub validation_repeated: Option<String>,
     pub sorted_problem: Option<String>,
     // reach only (not compared)
@@ -343,6 +345,7 @@ impl Obs {
             ("generate(original)", &self.gen_orig),
             ("generate(deduplicated)", &self.gen_dedup),
             ("validation_as_sets", &self.validation),
+            ("resolve_type_path(all ids)", &self.resolve_all),
         ]
     }
     pub fn digest(&self) -> u64 {
@@ -430,6 +433,25 @@ pub fn execute(reg: &PortableRegistry, sw: &Switches, ops: &[Op]) -> Obs {
             }
         }
     };
+    {
+        use scale_typegen::typegen::ir::ToTokensWithSettings;
+        let g = scale_typegen::TypeGenerator::new(reg, &settings);
+        let mut all = String::new();
+        for id in 0..reg.types.len() as u32 {
+            let r = entropy::catch(|| {
+                g.resolve_type_path(id)
+                    .map(|p| p.to_token_stream(&settings).to_string())
+                    .map_err(|e| observe::err_text(&e))
+            });
+            let line = match r {
+                Ok(Ok(t)) => t,
+                Ok(Err(e)) => format!("Err:{e}"),
+                Err(p) => format!("PANIC:{p}"),
+            };
+            all.push_str(&format!("{id}={line}\n"));
+        }
+        o.resolve_all = all;
+    }
     let g1 = observe::gen_tokens(reg, &settings);
     check_sorted(&g1, &mut o);
     let g2 = observe::gen_tokens(reg, &settings);
@@ -466,11 +488,33 @@ pub fn execute(reg: &PortableRegistry, sw: &Switches, ops: &[Op]) -> Obs {
 pub struct ExecSpec {
     pub entropy: u64,
     pub ops: Vec<Op>,
+    /// generate this other (corpus) registry on the same thread first: state that survives a
+    /// generation (a thread-local or static cache) would then leak into the observed one
+    pub decoy: Option<String>,
 }
+
+/// Registries generated as decoys before the observed one.
+pub fn decoy_registry(name: &str) -> Option<&'static PortableRegistry> {
+    static DECOYS: std::sync::OnceLock<Vec<corpus::Entry>> = std::sync::OnceLock::new();
+    DECOYS
+        .get_or_init(corpus::families)
+        .iter()
+        .find(|e| e.name == name)
+        .map(|e| &e.reg)
+}
+pub const DECOY_SELF_DEFAULT: &str = "self:default-settings";
+pub const DECOY_NAMES: &[&str] = &[
+    "fam:generics1",
+    "fam:compact",
+    DECOY_SELF_DEFAULT,
+    "fam:modules",
+    "fam:calls",
+    DECOY_SELF_DEFAULT,
+];
 
 impl ExecSpec {
     pub fn to_json(&self) -> Value {
-        json!({"entropy_seed": self.entropy, "ops": self.ops.iter().map(|o| o.to_json()).collect::<Vec<_>>()})
+        json!({"entropy_seed": self.entropy, "decoy_generated_first": self.decoy, "ops": self.ops.iter().map(|o| o.to_json()).collect::<Vec<_>>()})
     }
     pub fn from_json(v: &Value) -> Result<Self, String> {
         let entropy = v
@@ -481,12 +525,40 @@ impl ExecSpec {
         for o in v.get("ops").and_then(|x| x.as_array()).ok_or("ops")? {
             ops.push(Op::from_json(o)?);
         }
-        Ok(ExecSpec { entropy, ops })
+        Ok(ExecSpec {
+            entropy,
+            ops,
+            decoy: v
+                .get("decoy_generated_first")
+                .and_then(|x| x.as_str())
+                .map(|s| s.to_string()),
+        })
     }
 }
 
 pub fn run_exec(reg: &PortableRegistry, sw: &Switches, e: &ExecSpec) -> (Result<Obs, String>, entropy::ThreadStats) {
-    entropy::execution(e.entropy, || execute(reg, sw, &e.ops))
+    entropy::execution(e.entropy, || {
+        if e.decoy.as_deref() == Some(DECOY_SELF_DEFAULT) {
+            // the observed registry itself, under default settings (keyed-by-id or by-path state
+            // from a generation with other settings would be stale afterwards)
+            let settings = Switches {
+                compact_as: None,
+                ..Switches::standard()
+            }
+            .settings(Builders::new());
+            let _ = observe::gen_tokens(reg, &settings);
+        } else if let Some(d) = e.decoy.as_deref().and_then(decoy_registry) {
+            // same settings, different registry, results ignored
+            let mut b = Builders::new();
+            for op in &e.ops {
+                let _ = b.apply(op);
+            }
+            let settings = sw.settings(b);
+            let _ = observe::gen_tokens(d, &settings);
+            let _ = observe::dedup(d);
+        }
+        execute(reg, sw, &e.ops)
+    })
 }
 
 /// Compare a set of executions; returns (class, detail) of the first disagreement.
@@ -689,6 +761,8 @@ pub fn plan_run(w: &World, root_seed: u64, run: u64, tier: Tier, full_runs: u64)
         .map(|i| ExecSpec {
             entropy: mix(rs, tag("entropy"), i),
             ops: linearise(&logical, mix(rs, tag("linearise"), i), None),
+            decoy: (i % 2 == 1)
+                .then(|| DECOY_NAMES[(mix(rs, tag("decoy"), i) % DECOY_NAMES.len() as u64) as usize].to_string()),
         })
         .collect();
     RunPlan {
@@ -720,6 +794,32 @@ pub struct RunReport {
     pub sample: Option<Value>,
     pub reg_kind: String,
     pub repeats: usize,
+    /// (observable, number of entries, permutation pattern relative to sorted order)
+    pub patterns: BTreeSet<(String, usize, String)>,
+}
+
+/// The iteration order of a comma separated key list as a permutation of its sorted order
+/// (only for 2..=6 distinct entries): the measure of "distinct interleavings reached".
+fn permutation_pattern(raw: &str) -> Option<(usize, String)> {
+    if raw.is_empty() || raw.contains('[') || raw.contains('|') {
+        return None;
+    }
+    let items: Vec<&str> = raw.split(',').filter(|s| !s.is_empty()).collect();
+    let n = items.len();
+    if !(2..=6).contains(&n) {
+        return None;
+    }
+    let mut sorted = items.clone();
+    sorted.sort();
+    sorted.dedup();
+    if sorted.len() != n {
+        return None;
+    }
+    let pat: Vec<String> = items
+        .iter()
+        .map(|x| sorted.iter().position(|y| y == x).unwrap().to_string())
+        .collect();
+    Some((n, pat.join("")))
 }
 
 fn overlapping_recursive(reg: &PortableRegistry, l: &Logical) -> bool {
@@ -771,6 +871,9 @@ pub fn one_run(w: &World, ctx: &Ctx, run: u64, full_runs: u64, want_sample: bool
             Ok(o) => {
                 log.u64(o.digest());
                 for (k, v) in &o.raw_orders {
+                    if let Some(pat) = permutation_pattern(v) {
+                        rep.patterns.insert((k.clone(), pat.0, pat.1));
+                    }
                     orders.entry(k.clone()).or_default().insert(v.clone());
                     // the raw orders are part of the event log: equal seeds must give equal orders
                     log.str(v);
@@ -879,6 +982,7 @@ pub fn minimise_and_package(plan: &RunPlan, class: String, detail: String, run: 
         slots
             .iter()
             .map(|&i| ExecSpec {
+                decoy: plan.execs[i].decoy.clone(),
                 entropy: plan.execs[i].entropy,
                 ops: if first {
                     plan.execs[i].ops.clone()
@@ -912,14 +1016,24 @@ pub fn minimise_and_package(plan: &RunPlan, class: String, detail: String, run: 
     }
     execs = slots.iter().map(|&i| plan.execs[i].clone()).collect();
     let mut explicit = true; // execs hold the original histories
-    // 2. shrink the logical settings (re-linearised), element by element
+    // 2. shrink the logical settings (re-linearised), element by element. A failure that
+    // depends on the hash schedule survives a smaller history only under some hash keys (the
+    // history length shifts std's per-map key counter), so each candidate is tried under a
+    // few derived entropy seeds and the reproducing ones are adopted.
     let try_logical = |l: &Logical, reg: &PortableRegistry| -> Option<Vec<ExecSpec>> {
         let e = build(l, &slots, false);
-        if same(&class_of(reg, &sw, &e)) {
-            Some(e)
-        } else {
-            None
+        for t in 0..6u64 {
+            let mut cand = e.clone();
+            if t > 0 {
+                for (k, x) in cand.iter_mut().enumerate() {
+                    x.entropy = mix(x.entropy, tag("shrink-entropy"), t * 16 + k as u64);
+                }
+            }
+            if same(&class_of(reg, &sw, &cand)) {
+                return Some(cand);
+            }
         }
+        None
     };
     if let Some(e) = try_logical(&logical, &reg) {
         execs = e;
@@ -969,7 +1083,21 @@ pub fn minimise_and_package(plan: &RunPlan, class: String, detail: String, run: 
         // identical histories, different hash keys: a two-way choice is hit by a single
         // alternative key only half of the time, so several are tried
         let mut found = false;
+        if execs[0].decoy != execs[1].decoy {
+            // identical history and hash keys, only the decoy generation differs
+            let mut same_all = execs.clone();
+            same_all[1].ops = same_all[0].ops.clone();
+            same_all[1].entropy = same_all[0].entropy;
+            if same(&class_of(&reg, &sw, &same_all)) {
+                execs = same_all;
+                responsible = "state left behind by a previous generation on the same thread (identical history and hash keys; one execution generated another registry first)";
+                found = true;
+            }
+        }
         for t in 0..12u64 {
+            if found {
+                break;
+            }
             let mut same_ops = execs.clone();
             same_ops[1].ops = same_ops[0].ops.clone();
             if t > 0 {
@@ -1109,7 +1237,11 @@ fn summarise(ctx: &Ctx, reports: Vec<RunReport>, cross: Value, mut violations: V
     let mut draws = 0u64;
     let mut log = Digest::new();
     let mut seen_keys = BTreeSet::new();
+    let mut patterns: BTreeMap<(String, usize), BTreeSet<String>> = BTreeMap::new();
     for r in reports {
+        for (k, n, p) in &r.patterns {
+            patterns.entry((k.clone(), *n)).or_default().insert(p.clone());
+        }
         executions += r.executions;
         draws += r.draws;
         log.u64(r.log_digest);
@@ -1189,11 +1321,19 @@ fn summarise(ctx: &Ctx, reports: Vec<RunReport>, cross: Value, mut violations: V
             "distinct_128bit_key_pairs": keys.len(),
             "registration_permutation+batching (runs with >=2 distinct histories)": probes.get("runs_with_distinct_histories"),
             "same_thread_regeneration": executions,
+            "other_registry_generated_first_on_the_same_thread (every second execution)": executions / 2,
             "fresh_process_regeneration": cross,
         },
         "getrandom_draws_in_executions": draws,
         "unscheduled_draws_outside_executions": unsched,
         "runs_exhibiting_>=2_iteration_orders_per_observable": order_var,
+        "distinct_iteration_orders_reached (observable, entries n): distinct permutations of n!": patterns
+            .iter()
+            .map(|((k, n), set)| {
+                let fact: u64 = (1..=*n as u64).product();
+                (format!("{k} n={n}"), format!("{} of {}", set.len(), fact))
+            })
+            .collect::<BTreeMap<_, _>>(),
         "reach_probes": probes,
         "registry_kinds": reg_kinds,
         "generation_error_variants_seen": errs,
